@@ -24,6 +24,7 @@ RULE = ('case = one random calculator (as in C29: vacancy-mediated on named/rand
 ASSUMPTIONS = ['perl is available; each trans.pl run has a 60 s timeout (a timeout is reported as inconclusive, not as a violation)',
                'CONTCAR = the POSCAR of the relaxation directory, in half of the runs with uniform displacements of +-1e-4 (direct coordinates), '
                'far below the 0.1 A matching threshold of POSCAR_occ',
+               'at most 10 (quick) / 30 (thorough) randomly chosen Makefile rules are executed per archive (process start-up cost); all rules are checked statically',
                'positions written with 16 decimals: independent parse compares to 1e-12',
                'transitionname is left at its default because the Makefile template hard-codes neb.%']
 REQUIRED_OBS = {'archives_checked': 30, 'eval:C30:tags-bijection': 30, 'eval:C30:poscar-api': 200, 'eval:C30:poscar-parse': 200,
@@ -104,6 +105,8 @@ def noisy_contcar(text, rng, amp=1e-4):
 def makefile_rules(text):
     """explicit rules 'target: prereq ...' (no patterns, no variables, no special targets)"""
     rules = []
+    marker = '# structure of NEB runs:'  # everything before it is the fixed template (pattern rules, help, ...)
+    if marker in text: text = text.split(marker, 1)[1]
     for line in text.split('\n'):
         if not line or line[0] in '\t#.' or '%' in line or '$' in line or '=' in line: continue
         m = re.match(r'^(\S+)\s*:\s*(.*)$', line)
@@ -149,7 +152,8 @@ def run_case(case):
             elif u < 0.5: opts['KPOINTS'] = automator.KPOINTS_MP.format(N1=2, N2=2, N3=3)
             if rng.uniform() < 0.7: opts['YAMLdef'] = None
             info = dict(desc, kind=kind, S=S, mode=mode, options={k: v for k, v in opts.items() if k != 'KPOINTS'},
-                        kpoints=('KPOINTS' not in opts or opts['KPOINTS'] is not None), hashseed=case.get('hashseed'))
+                        kpoints=('KPOINTS' not in opts or opts['KPOINTS'] is not None), hashseed=case.get('hashseed'),
+                        tier=case.get('tier', 'quick'))
             if sample is None: sample = info
             ctags = list(tags)
             if kind == 'interstitial' and any(len(v) != 2 for v in sd['transmapping'].values()):
@@ -302,7 +306,12 @@ def check_archive(mon, automator, buf, sd, opts, info, rng, tmp):
         os.makedirs(os.path.dirname(path), exist_ok=True)
         with open(path, 'w') as f: f.write(text)
     nrun = 0
-    for target, prereqs in sorted(targets.items()):
+    todo = sorted(targets.items())
+    maxrun = 10 if info.get('tier', 'quick') == 'quick' else 30
+    if len(todo) > maxrun:  # process start-up dominates: run a random subset of the rules
+        mon.count('rules_not_run', len(todo) - maxrun)
+        todo = [todo[k] for k in sorted(rng.choice(len(todo), size=maxrun, replace=False))]
+    for target, prereqs in todo:
         d, x = re.match(r'^(.+)/POSCAR\.(init|final)$', target).groups()
         t = tagmap[d]
         end = transitions[t][0 if x == 'init' else 1]
